@@ -67,6 +67,14 @@ BASES = [
     {'name': 'big_compressed_vs_small', 'threads': [[_bin(1, 0, 65540)],
                                                      [_txt(2, 0, 60)]],
      'compress': True},
+    {'name': 'snct_inbound_vs_sender', 'threads': [[_txt(1, 0, 60)],
+                                                   [_txt(2, 0, 60)]],
+     'compress': True, 'snct': True, 'loop': ['ctext', 'ctext']},
+    {'name': 'repeated_texts', 'threads': [
+        [{'op': 'send_text', 'text': 'alpha alpha'},
+         {'op': 'send_text', 'text': 'alpha alpha'}],
+        [{'op': 'send_text', 'text': 'beta beta beta'},
+         {'op': 'send_text', 'text': 'alpha alpha'}]]},
     {'name': 'loop_echo_vs_sender', 'threads': [[_txt(1, 0), _txt(1, 1)]],
      'loop': ['text', 'ping'], 'app_echo': True},
 ]
@@ -96,27 +104,53 @@ def plan(tier):
     q = tier == 'quick'
     if not q:
         return [('sweep1', len(BASES) * SLOT1),
+                ('sweep1b', len(BASES) * SLOT1),
                 ('sweep2_full', sum(_full2_size(b) for b in _full2_bases())),
+                ('base_random', len(BASES) * 6000),
                 ('sweep2', 60000),
                 ('random', 150000),
                 ('big', 3000)]
     return [('sweep1', len(BASES) * SLOT1),
+            ('sweep1b', len(BASES) * SLOT1),
+            ('base_random', len(BASES) * 250),
             ('sweep2', 3000 if q else 200000),
             ('random', 2500 if q else 150000),
             ('big', 60 if q else 3000)]
 
 
 def make_case(family, i, rng, tier):
-    if family == 'sweep1':
+    if family in ('sweep1', 'sweep1b'):
         b = i // SLOT1
         n, nt = _info(b)
         slot = i % SLOT1
         step, who = slot // (nt + 1), slot % (nt + 1)
-        if step < 1 or step > n:
-            return None
         tid = who if who < nt else T.threadsim.CLOCK
         case = copy.deepcopy(BASES[b])
-        case['schedule'] = {'kind': 'preempt', 'points': [[step, tid]]}
+        if family == 'sweep1':
+            if step < 1 or step > n:
+                return None
+            case['schedule'] = {'kind': 'preempt', 'points': [[step, tid]]}
+        else:
+            # same sweep over the other default order: the sender threads
+            # run first (the event loop is held back at the spawn point), so
+            # that one pre-emption can hand a half-finished send to an event
+            # loop that still has unread traffic
+            if step < 2 or step > n + 60:
+                return None
+            case['schedule'] = {'kind': 'preempt',
+                                'points': [[1, 1], [step, tid]]}
+        return case
+    if family == 'base_random':
+        # seeded random-walk / PCT schedules over the hand-written bases
+        # (their interesting windows need two or more pre-emptions)
+        case = copy.deepcopy(BASES[i % len(BASES)])
+        if rng.random() < 0.6:
+            case['schedule'] = {'kind': 'random', 'seed': rng.getrandbits(32),
+                                'stay': rng.choice([0.5, 0.7, 0.85, 0.95])}
+        else:
+            case['schedule'] = {'kind': 'pct', 'seed': rng.getrandbits(32),
+                                'd': rng.choice([2, 3, 4]),
+                                'horizon': rng.choice([150, 400, 800])}
         return case
     if family == 'sweep2_full':
         for b in _full2_bases():
@@ -155,8 +189,10 @@ def make_case(family, i, rng, tier):
                 for k in range(rng.choice([1, 2, 3]))]
                for t in range(nthreads)]
     case = {'name': family, 'threads': threads,
-            'loop': rng.choice([[], [], ['ping'], ['ping', 'ping'], ['text']]),
+            'loop': rng.choice([[], [], ['ping'], ['ping', 'ping'], ['text'],
+                                ['ctext', 'ping'], ['ctext', 'ctext']]),
             'compress': rng.random() < 0.5, 'cnct': rng.random() < 0.4,
+            'snct': rng.random() < 0.4,
             'ping_rate': rng.choice([0, 0, 0.5]), 'poll': rng.choice([1, 0.5]),
             'app_echo': rng.random() < 0.3,
             'max_steps': 200000 if family == 'big' else 30000}
@@ -227,6 +263,8 @@ def execute(case):
             want.append((c.tid, c.k, opcode, ref))
         elif not c.exc_is_wse:
             res.bad('C11/%s/send_raised_%s' % (base, c.exc), c.op['op'])
+    if 'ctext' in (case.get('loop') or []) and not compress:
+        pass
     lib = [(9, b''), (10, b'srv-ping')]
     got_app = [d for d in decoded if d not in lib and d[0] != 8 and
                d != (1, b'loop-echo')]
@@ -238,14 +276,13 @@ def execute(case):
                         [(o, r[:10]) for o, r in want_multiset][:6],
                         [(o, (r or b'')[:10]) for o, r in got_app][:6], sig))
         else:
-            pos = {}
-            for i, d in enumerate(got_app):
-                pos.setdefault(d, []).append(i)
+            # payloads may repeat (also across threads): each thread's
+            # messages, in call order, must be a subsequence of the wire
             for tid in set(t for t, _, _, _ in want):
-                mine = [(k, o, r) for t, k, o, r in want if t == tid]
-                mine.sort()
-                idxs = [pos[(o, r)][0] for k, o, r in mine]
-                if idxs != sorted(idxs):
+                mine = [(o, r) for t, k, o, r in sorted(
+                    x for x in want if x[0] == tid)]
+                it = iter(got_app)
+                if not all(any(m == g for g in it) for m in mine):
                     res.bad('C11/%s/thread_order' % base,
                             'messages of thread %d out of call order | %s' % (
                                 tid, sig))
